@@ -38,6 +38,7 @@ ToInt(a) == ToIntFrom(a, 1)
 FitsInt(a) == Len(a) <= 2         \* < 2^30
 
 Max2(x, y) == IF x >= y THEN x ELSE y
+Min2(x, y) == IF x <= y THEN x ELSE y
 
 (***************************************************************************)
 (* Comparison: -1, 0, 1                                                    *)
@@ -94,13 +95,28 @@ MulSmall(a, m) == IF m = 0 \/ a = <<>> THEN <<>> ELSE MulSmallFrom(a, m, 1, 0)
 
 ShiftUp(a, k) == IF a = <<>> THEN <<>> ELSE [i \in 1..k |-> 0] \o a
 
-RECURSIVE MulFrom(_, _, _)
-MulFrom(a, b, j) ==
-    IF j > Len(b) THEN <<>>
-    ELSE Add(ShiftUp(MulSmall(a, b[j]), j - 1), MulFrom(a, b, j + 1))
+\* Schoolbook product by columns.  Each limb product p < 2^30 is split into p % B and
+\* p \div B so that a column sum of up to Len limbs stays far below 2^31; one carry
+\* pass then normalises the coefficients.
+RECURSIVE ColSum(_, _, _, _, _, _, _)
+ColSum(a, b, k, i, hi, lo, up) ==
+    IF i > hi THEN <<lo, up>>
+    ELSE LET p == a[i] * b[k + 1 - i]
+         IN  ColSum(a, b, k, i + 1, hi, lo + (p % B), up + (p \div B))
 
-Mul(a, b) == IF a = <<>> \/ b = <<>> THEN <<>>
-             ELSE IF Len(a) >= Len(b) THEN MulFrom(a, b, 1) ELSE MulFrom(b, a, 1)
+RECURSIVE CarryFrom(_, _, _)
+CarryFrom(co, k, c) ==
+    IF k > Len(co) THEN (IF c = 0 THEN <<>> ELSE <<c>>)
+    ELSE LET s == co[k] + c
+         IN  <<s % B>> \o CarryFrom(co, k + 1, s \div B)
+
+Mul(a, b) ==
+    IF a = <<>> \/ b = <<>> THEN <<>>
+    ELSE LET n    == Len(a)
+             m    == Len(b)
+             cols == [k \in 1..(n + m) |-> ColSum(a, b, k, Max2(1, k + 1 - m), Min2(n, k), 0, 0)]
+             co   == [k \in 1..(n + m) |-> cols[k][1] + (IF k > 1 THEN cols[k - 1][2] ELSE 0)]
+         IN  Norm(CarryFrom(co, 1, 0))
 
 (***************************************************************************)
 (* Division by a single limb: <<quotient, remainder (Int)>>                *)
@@ -129,8 +145,6 @@ DivSmall(a, m) == LET res == DivSmallFrom(a, m, Len(a), 0, <<>>)
 (***************************************************************************)
 RECURSIVE FitDigit(_, _, _)
 FitDigit(rem, d, q) == IF Le(MulSmall(d, q), rem) THEN q ELSE FitDigit(rem, d, q - 1)
-
-Min2(x, y) == IF x <= y THEN x ELSE y
 
 RECURSIVE LongDivFrom(_, _, _, _, _)
 \* brings down limbs i, i-1, ..., 1 of n; rem < d on entry; acc = quotient so far
